@@ -198,7 +198,7 @@ Definition u_step (v : variant) (u : ustate) (o : uop) : option ustate :=
   | USketch true s => u_update_rv v u s
   | UCoupon c => u_coupon u c
   | UEstimate => u_estimate u
-  | UResult ty => match u_result u ty with Some _ => Some u | None => None end
+  | UResult ty => Some u        (* get_result is const and copyAs does not touch the gadget: the state is unchanged *)
   | UReset => Some (u_reset v u)
   end.
 
